@@ -1,8 +1,21 @@
 """Driver helpers shared by C03, C05, C06 (MBF numbers): build values of the real interpreter from byte patterns,
 call pcbasic.basic.values operators / the real expression parser, project outcomes to {k, t, b, c}, and generate
 interesting byte patterns.  No judgement is made here: TLC judges every recorded outcome with spec/MBF*.tla."""
+import signal
 from .session import Sess, find_errors
 from . import core
+
+CALL_TIMEOUT = 30.0     # seconds; an implementation call that does not return is reported as k='internal' (hang)
+MAX_HANGS = 3           # after that many hangs no further call is made (events marked SKIPPED are not validated)
+SKIPPED = 'not executed: the implementation hung %d times before' % MAX_HANGS
+
+
+class Hang(BaseException):
+    """Raised by the watchdog inside an implementation call that does not return."""
+
+
+def _on_alarm(signum, frame):
+    raise Hang('implementation call did not return within %d s' % CALL_TIMEOUT)
 
 TNAME = {b'%': 'i', b'!': 's', b'#': 'd', b'$': 'str'}
 SIZE = {'i': 2, 's': 4, 'd': 8}
@@ -27,9 +40,28 @@ class Drv(object):
         self.vm.error_handler.suspend(True)
         self.ntext = 0
         self.ndirect = 0
+        self.hangs = 0
+        # watchdog (main thread only): armed around every implementation call
+        signal.signal(signal.SIGALRM, _on_alarm)
 
     def close(self):
+        signal.setitimer(signal.ITIMER_REAL, 0)
         self.sess.close()
+
+    def ev(self, expr):
+        """Session.evaluate through vf.session.Sess.ev, under the watchdog."""
+        if self.hangs >= MAX_HANGS:
+            return ('internal', SKIPPED, b'')
+        signal.setitimer(signal.ITIMER_REAL, CALL_TIMEOUT)
+        try:
+            r = self.sess.ev(expr)
+        except Hang as e:
+            r = ('internal', 'Hang: %s' % e, b'')
+        finally:
+            signal.setitimer(signal.ITIMER_REAL, 0)
+        if r[0] == 'internal' and str(r[1]).startswith('Hang'):
+            self.hangs += 1
+        return r
 
     # ---- values --------------------------------------------------------------
     def val(self, b):
@@ -45,13 +77,20 @@ class Drv(object):
 
     def call(self, fn, *args):
         """Direct call of a pcbasic.basic.values function -> outcome dict {k, t, b, c}."""
+        if self.hangs >= MAX_HANGS:
+            return {'k': 'internal', 't': '?', 'b': [], 'c': 0, 'detail': SKIPPED}
         self.ndirect += 1
+        signal.setitimer(signal.ITIMER_REAL, CALL_TIMEOUT)
         try:
             r = fn(*args)
         except self.error.BASICError as e:
             return {'k': 'err', 't': '?', 'b': [], 'c': e.err}
-        except BaseException as e:  # noqa  (an escaping Python exception: always a rejection)
+        except BaseException as e:  # noqa  (an escaping Python exception or a hang: always a rejection)
+            if isinstance(e, Hang):
+                self.hangs += 1
             return {'k': 'internal', 't': '?', 'b': [], 'c': 0, 'detail': '%s: %s' % (type(e).__name__, e)}
+        finally:
+            signal.setitimer(signal.ITIMER_REAL, 0)
         try:
             t, b = self.project(r)
         except BaseException as e:  # noqa
@@ -62,6 +101,8 @@ class Drv(object):
         """Evaluate BASIC text with the real tokeniser + expression parser (what Session.evaluate does) but keep the
         result's type and bytes instead of converting it to a Python value. Floating-point errors are soft-handled
         on the console here (direct mode), reported as k='soft' with the substituted value."""
+        if self.hangs >= MAX_HANGS:
+            return {'k': 'internal', 't': '?', 'b': [], 'c': 0, 'detail': SKIPPED}
         self.ntext += 1
         impl = self.impl
         s = self.sess
@@ -70,6 +111,7 @@ class Drv(object):
         s.take()
         self.vm.error_handler.suspend(False)
         res = None
+        signal.setitimer(signal.ITIMER_REAL, CALL_TIMEOUT)
         try:
             with impl.io_streams.activate():
                 with impl._handle_exceptions():
@@ -77,8 +119,12 @@ class Drv(object):
                     tokens.read(2)
                     res = self.project(impl.parser.parse_expression(tokens))
         except BaseException as e:  # noqa
+            signal.setitimer(signal.ITIMER_REAL, 0)
             self.vm.error_handler.suspend(True)
+            if isinstance(e, Hang):
+                self.hangs += 1
             return {'k': 'internal', 't': '?', 'b': [], 'c': 0, 'detail': '%s: %s' % (type(e).__name__, e)}
+        signal.setitimer(signal.ITIMER_REAL, 0)
         self.vm.error_handler.suspend(True)
         errs = find_errors(s.take())
         if res is None:
@@ -305,6 +351,8 @@ class Sink(object):
         self.want = list(sample_groups)
 
     def append(self, e):
+        if SKIPPED in str(e.get('detail', '')):
+            return                      # not executed (see Drv.hangs): nothing was observed, nothing to judge
         g = self.group(e)
         if g in self.want:
             self.want.remove(g)
